@@ -112,3 +112,18 @@ class ParserErrorListener(ErrorListener):
         This method is currently a no-op, as it being called does not indicate an error necessarily.
         """
         pass
+
+
+class LexerErrorListener(ParserErrorListener):
+    """
+    Listens for lexer errors (unterminated strings, invalid escape sequences, etc.)
+    and raises :class:`CMakeSyntaxError` when they occur. By default the lexer
+    only prints such errors and silently drops the offending characters.
+    """
+
+    def syntaxError(self, recognizer, offendingSymbol, line, column, msg, e):
+        """
+        Always raises :class:`CMakeSyntaxError`. The lexer's own RecognitionException is not re-raised
+        because the parser pulling the tokens would catch it and try to recover from it.
+        """
+        super().syntaxError(recognizer, offendingSymbol, line, column, msg, None)
